@@ -3,6 +3,7 @@
 //	c03 facts                      : key sets of the two decoder tables (through the verif hook)
 //	c03 srcfacts -repo DIR [-out F] : source facts (delegating / separately written decoder and encoder pairs, position-relative
 //	                                 SR decoders), see srcfacts.go; F = coq/c03/C03Facts.v
+//	c03 probe -repo DIR            : reader methods observed while decoding harvested boxes vs the extractor's static method sets
 //	c03 corr   -seed S -n N -exh L : D lines (shape lists through DecodeFile and DecodeFileSR: grouping observables)
 //	                                 and E lines (decoded File structure with per-box encodings + File.Encode / EncodeSW bytes)
 //	c03 search -seed S -n N        : the property itself on testdata files, harvested boxes and their mutants
@@ -51,6 +52,11 @@ func main() {
 	case "srcfacts":
 		_ = fs.Parse(os.Args[2:])
 		rc := cmdSrcFacts(*repo, *outv)
+		out.Flush()
+		os.Exit(rc)
+	case "probe":
+		_ = fs.Parse(os.Args[2:])
+		rc := cmdProbe(*repo)
 		out.Flush()
 		os.Exit(rc)
 	case "worker":
